@@ -231,7 +231,12 @@ theorem validateTracklets_eq (nodeIds : List Int) (edgeIds : List (Int × Int)) 
       funext e
       rw [Bool.eq_iff_iff]
       simp [bne_iff_ne]
-    rw [c1, c2]
+    -- the two operands of `max_in_degree > 1 or max_out_degree > 1` in either order (a harmless rewrite)
+    have c1' : ((List.map (fun x => (succs S x).length) C).any (fun d => decide (1 < d)) ||
+         (List.map (fun x => (preds S x).length) C).any (fun d => decide (1 < d)))
+         = C.any (fun v => decide (1 < (preds S v).length ∨ 1 < (succs S v).length)) := by
+      rw [Bool.or_comm]; exact c1
+    first | rw [c1, c2] | rw [c1', c2]
     split
     · simp [stepOf, Geff.Tracklet.message, pyStr]
     split
